@@ -156,6 +156,69 @@ def once_reach(*a):
     return LAST[10] is None and len(LAST[12]) >= 1
 
 
+POOL5 = ['La', 'Lb', 'Lc', 'Ld', 'Le']
+PERM5 = list(itertools.permutations(range(5)))
+INS5 = [(0, 1, 2, 3, 4), (4, 3, 2, 1, 0), (2, 4, 0, 3, 1)]
+OWN5 = [31, 15, 23, 27, 29, 30, 6, 22]
+
+
+def order5(p, q, topo, own):
+    """A diamond whose apex has one more, unrelated base: nodes 0 = shared base P, 1 = B1(P), 2 = Q(P), 3 = R, 4 = T(B1, Q, R)
+    (topo 0) or T(R, B1, Q) (topo 1); every naming of the five nodes; the order must not put a layer before one of its bases."""
+    global LAST
+    LAST = None
+    naming = pick(PERM5, p)
+    ins = pick(INS5, q)
+    topo = ci(topo, 0, 1)
+    own = pick(OWN5, own)
+    owners = {i for i in range(5) if own >> i & 1}
+    names = [POOL5[naming[i]] for i in range(5)]
+    with untraced():
+        P = W.mk_layer(names[0], (), hooks='')
+        B1 = W.mk_layer(names[1], (P,), hooks='')
+        Q = W.mk_layer(names[2], (P,), hooks='')
+        Rr = W.mk_layer(names[3], (), hooks='')
+        T = W.mk_layer(names[4], (B1, Q, Rr) if topo == 0 else (Rr, B1, Q), hooks='')
+        layers = [P, B1, Q, Rr, T]
+        bases = {0: set(), 1: {0}, 2: {0}, 3: set(), 4: {1, 2, 3}}
+    got = run_order(5, layers, owners, ins, 0, False, False)
+    ref = run_order(5, layers, owners, (0, 1, 2, 3, 4), 0, False, False)
+    with untraced():
+        why = oracle(5, layers, bases, owners, 0, False, got, ref)
+    LAST = (5, tuple(names), topo, tuple(sorted(owners)), ins, why, tuple(nm for nm, _l in got))
+    return why is None
+
+
+def resumed(mode, tdk):
+    """The order in which layers really run when they are handed to subprocesses (-j N with fewer processes than layers, or
+    after a tearDown that raised NotImplementedError) is the sequential layer order: unit tests first, then sorted."""
+    global LAST
+    from vt import fullrun as FR
+    mode = pick(['nie', 'j2', 'j3', 'j1'], mode)
+    tdk = ci(tdk, 0, 1)
+    with untraced():
+        kinds = {'u0': W.PASS, 'a0': W.PASS, 'x0': W.PASS, 'b0': W.PASS, 'b1': W.PASS}
+        world = FR.World(kinds, td={'A': 2} if (mode == 'nie' or tdk) else {}, order=['b0', 'x0', 'u0', 'a0', 'b1'])
+    res = FR.run(world, mode)
+    with untraced():
+        seq = []
+        for e in res.trace:
+            if e[1] == 'test' and e[2][0] not in seq:
+                seq.append(e[2][0])
+        why = None
+        if res.escaped or res.thread_exc:
+            why = 'exception %r / %r' % (res.escaped, res.thread_exc)
+        elif seq != ['u', 'a', 'x', 'b']:
+            why = 'layers ran in order %r, the layer order is unit tests, w.A, w.A2, w.B (mode %s, %d children)' % (seq, mode, len(res.children))
+    LAST = ('resumed', mode, tdk, why, tuple(seq), len(res.children))
+    return why is None
+
+
+def resumed_reach(*a):
+    resumed(*a)
+    return LAST[3] is None and LAST[5] >= 2
+
+
 def _mk(k):
     ne = k * (k - 1) // 2
     params = [('p', 'int'), ('q', 'int'), ('m0', 'bool'), ('dup', 'bool'), ('inst', 'bool'), ('unit', 'int'), ('j', 'bool'), ('own', 'int')]
@@ -207,6 +270,16 @@ SPEC = {
          'reach': 'once_reach',
          'timeout': {'quick': 300, 'thorough': 800},
          'fidelity': [dict(e10=False, e20=False, e21=False, td0=2, td1=0, td2=0, x=False), dict(e10=True, e20=False, e21=True, td0=0, td1=2, td2=1, x=True)]},
+        {'name': 'order5', 'fn': 'order5', 'params': [('p', 'int'), ('q', 'int'), ('topo', 'int'), ('own', 'int')], 'call': 'p, q, topo, own',
+         'bounds': {'quick': '0 <= p < 120 and 0 <= q < 3 and 0 <= topo <= 1 and 0 <= own < 3', 'thorough': '0 <= p < 120 and 0 <= q < 3 and 0 <= topo <= 1 and 0 <= own < %d' % len(OWN5)},
+         'slices': {'quick': ['p %% 8 == %d' % i for i in range(8)], 'thorough': ['p %% 8 == %d and topo == %d' % (i, t) for i in range(8) for t in (0, 1)]},
+         'timeout': {'quick': 300, 'thorough': 1200},
+         'fidelity': [dict(p=0, q=1, topo=0, own=0), dict(p=77, q=2, topo=1, own=1)]},
+        {'name': 'resumed', 'fn': 'resumed', 'params': [('mode', 'int'), ('tdk', 'int')], 'call': 'mode, tdk',
+         'bounds': {'quick': '0 <= mode <= 3 and 0 <= tdk <= 1', 'thorough': '0 <= mode <= 3 and 0 <= tdk <= 1'},
+         'reach': 'resumed_reach',
+         'timeout': {'quick': 300, 'thorough': 300},
+         'fidelity': [dict(mode=0, tdk=0), dict(mode=1, tdk=1)]},
         {'name': 'order4', 'fn': 'order', 'params': p4, 'call': c4,
          'bounds': {'thorough': b4 + ' and not j and not m0 and not dup and unit == 0 and not inst and (own == 15 or own == 7 or own == 11 or own == 13 or own == 14)'},
          'slices': {'thorough': ['p == %d' % i for i in range(24)]},
